@@ -8,6 +8,8 @@ guarded by a membership test in the node's own move list; R4 only the three
 PV helpers write the PV, and what they are given comes from the node's list
 or the guarded table move; R5 move ordering only permutes; R6 no non-returning
 construct in the search thread. Legality of the list itself is C01's concern."""
+import re
+
 from facts import AnalysisBroken
 from prog import walk, kids, short, access_kind
 from rules import flow
@@ -288,6 +290,23 @@ def check(ctx):
                'every path through %s (including early returns for draws, stops and cut-offs) first (re)defines this frame\'s PV' % short(f.name),
                site=f.loc(), detail={'path_blocks_without_pv_write': path})
     ctx.floor('C05.R4.pv-defined', n_pvd, 2, 'recursive search functions with a frame')
+
+    # ---- R4a the root PV that is answered is the one the root search wrote -------------------------------
+    from rules.norm import Norm as _Nf
+    itf = p.fn('engine::Search::iter_search')
+    ctx.analysed(itf)
+    nf_ = _Nf(itf, keep=('info',))
+    roots_ = [n for n, cfid, nm in itf.calls() if nm == 'engine::Search::search']
+    frames_ = sorted({nf_.s(kids(c_)[-1]) for c_ in roots_})
+    bm_ = [n for n in itf.all_nodes() if n['k'] == 'BinaryOperator' and n.get('op') == '=' and nf_.s(kids(n)[0]) == '_best_move' and
+           '_pv_list' in nf_.s(kids(n)[1])]
+    pi_ = [n for n, cfid, nm in itf.calls() if nm == 'engine::Search::print_info']
+    if not roots_ or not bm_:
+        raise AnalysisBroken('C05: the root search call / the assignment of _best_move from a PV were not found in iter_search')
+    src_ = sorted({re.sub(r'\._pv_list\[0\]$', '', nf_.s(kids(n)[1])) for n in bm_} | {nf_.s(kids(c_)[-1]) for c_ in pi_})
+    ctx.ob('C05.R4.root-pv-frame', 'iter_search', len(frames_) == 1 and src_ == frames_,
+           'the move answered and the PV printed are read from the frame the root search was given (search: %s, read: %s)' % (frames_, src_),
+           site=itf.loc(bm_[0]))
 
     # ---- R4b the PV is printed from the positions it passes through ------------------------------------
     # Position::uci(m) renders castling from the side to move of the position asked, so the k-th PV move has to be formatted
